@@ -10,4 +10,12 @@ VT == [v \in 1..3 |-> CASE v = 1 -> <<>> [] v = 2 -> <<120>>
 R(a, b) == [s1 |-> a, s2 |-> b]
 \* "," "="   |   ", " ": " is not clean (a value contains a blank): ";;" "=>"   |   "&" ":="
 SepList == << R(<<44>>, <<61>>), R(<<59, 59>>, <<61, 62>>), R(<<38>>, <<58, 61>>) >>
+\* key conversions (ranks in the target order; the harness holds the keys that realize them):
+\*   int2str   int 2, 10, 33, 100 -> String "2", "10", "33", "100": "10" < "100" < "2" < "33"        (non-monotone, injective)
+\*   dbl2int   double 1.2, 1.7, 2.5, 2.9 -> int 1, 1, 2, 2                                          (monotone, non-injective)
+\*   int2byte  int 300, 10, 266, 5 -> unsigned char 44, 10, 10, 5                                   (non-monotone, non-injective)
+\*   int2dbl   int 1, 2, 3, 4 -> double                                                             (monotone, injective)
+F4(a, b, c, d) == [k \in 1..4 |-> CASE k = 1 -> a [] k = 2 -> b [] k = 3 -> c [] OTHER -> d]
+ConvList == << [name |-> "int2str", f |-> F4(3, 1, 4, 2)], [name |-> "dbl2int", f |-> F4(1, 1, 2, 2)],
+               [name |-> "int2byte", f |-> F4(3, 2, 2, 1)], [name |-> "int2dbl", f |-> F4(1, 2, 3, 4)] >>
 ================================================================================
